@@ -5,7 +5,13 @@ open Lean Aeic Aeic.Wire
 def handlers : List (String × (String → Json → Except String Json)) := [
   ("store", Aeic.Store.handle),
   ("merge", Aeic.Merge.handle),
-  ("c20", Aeic.ThreadGuard.handle)
+  ("c20", Aeic.ThreadGuard.handle),
+  ("c19", Aeic.Bada.handle),
+  ("c13", Aeic.Schedule.handle),
+  ("c11", Aeic.Dispatch.handle),
+  ("grid", Aeic.Grid.handle),
+  ("c01", Aeic.Emissions.handle),
+  ("c14", Aeic.Query.handle)
 ]
 
 def dispatch (op : String) (j : Json) : Except String Json :=
